@@ -31,7 +31,7 @@ PROFILES: List[Tuple[str, float, Dict[str, Any]]] = [
     ('reexport',  4, dict(reexport=0.6, roots=(1, 3))),
     ('consumers', 2, dict(reexport=0.7, roots=(2, 3), consumer_roots=True)),
     ('cyclic',    3, dict(reexport=0.3, cyclic=True, roots=(1, 2))),
-    ('cyclic-star', 1, dict(reexport=0.2, cyclic=True, star=0.6, roots=(1, 2))),
+    ('cyclic-star', 3, dict(reexport=0.2, cyclic=True, star=0.7, roots=(1, 2), own_all=0.1)),
     ('multi',     1, dict(reexport=0.7, multi_reexport=True, roots=(1, 3))),
     ('zope',      1, dict(reexport=0.3, zope=1.0, roots=(1, 2))),
     ('docassign', 1, dict(reexport=0.3, docassign=0.7, roots=(1, 2))),
@@ -98,6 +98,9 @@ def top_id(world: Dict[str, Any], i: int) -> int:
 
 
 def project(d: Dict[str, Dict[str, Any]], roots: Set[str]) -> Dict[str, Dict[str, Any]]:
+    """``roots`` = root names of the project plus every name some module of the project binds: an unresolved
+    linearisation entry that starts with one of them is a name of the project that pydoctor could not follow, not an
+    external class."""
     out = {}
     for i, rec in d.items():
         if i.startswith('!'):
@@ -206,6 +209,8 @@ def signature(world: Dict[str, Any], idx: Dict[int, Any], attr: str, ident: str,
             tags.append('target=' + ('ext' if ref.get('ext') else moved_tag(ref.get('id'))))
             tags.append('self=' + moved_tag(st['id']))
             tags.append('reach=' + ('?' if ref.get('id') is None else 'direct' if _direct(world, modname, ref) else 'chain'))
+            if _binders(world, modname, ref.get('expr', '').split('.')[0]) >= 2:
+                tags.append('star-rebinds-name')
         else:
             tags.append('self=' + moved_tag(st['id']))
     elif attr in ('kind', 'docstring', 'type', 'location', 'presence') and ident.startswith('M') and int(ident[1:]) in idx:
@@ -286,6 +291,43 @@ def signature(world: Dict[str, Any], idx: Dict[int, Any], attr: str, ident: str,
     return f'{PROPERTY}/{attr}/' + ','.join(tags)
 
 
+def _binders(world: Dict[str, Any], modname: str, name: str) -> int:
+    """How many statements of ``modname`` bind ``name``, counting a star import when the (final) exported names of
+    its source include it.  Two or more with a star import among them means that the star import re-binds a name the
+    module already had - harmless in Python when both denote the same object, but pydoctor then records whichever
+    came last, possibly an import chain it cannot follow."""
+    truth = world['truth']
+    n = 0
+    star = 0
+    m = world['modules'].get(modname)
+    if m is None:
+        return 0
+    for scope, st in W.iter_stmts(m['body']):
+        if scope:
+            continue
+        k = st['k']
+        if k in ('class', 'func', 'var') and st['name'] == name:
+            n += 1
+        elif k == 'alias' and st['name'] == name:
+            n += 1
+        elif k == 'import':
+            bound = st['as'] or st['mod'].split('.')[0]
+            n += int(bound == name)
+        elif k == 'from':
+            if st['names'] == '*':
+                src = world['modules'].get(st['mod'])
+                if src is None:
+                    continue
+                sns = truth['ns'].get(st['mod'], {})
+                exported = [x for x in src['all'] if x in sns] if src['all'] is not None else [x for x in sns if not x.startswith('_')]
+                if name in exported:
+                    n += 1
+                    star += 1
+            else:
+                n += sum(1 for o, a in st['names'] if (a or o) == name)
+    return n if star else min(n, 1)
+
+
 def _merge_partial(a: str, b: str) -> str:
     pre = 'star-from-partial:'
     if a.startswith(pre) or b.startswith(pre):
@@ -332,7 +374,12 @@ def _flows_through(world: Dict[str, Any], modname: str, ref: Dict[str, Any], pai
 
 
 def _roots(world: Dict[str, Any]) -> Set[str]:
-    return {m.split('.')[0] for m in world['modules']}
+    out = {m.split('.')[0] for m in world['modules']}
+    for ns in world['truth']['ns'].values():
+        out.update(ns)
+    for cns in world['truth']['cns'].values():
+        out.update(cns)
+    return out
 
 
 def run_world(world: Dict[str, Any], scheds: Sequence[Sequence[str]]) -> Dict[str, Any]:
